@@ -264,6 +264,16 @@ theorem matrixLU_stale_resize_counterexample :
 example : (luStep luTag (luAfter luTag ⟨0, none, 53⟩ [.decomp true false, .setItem 1]) (.decomp true false)).2
       = some (.ok (.computed, (1, 53))) := by decide
 
+/-- slice assignment (`A[i,:] = M`, `A[:,j] = x`, `A[a:b,c:d] = M`) does invalidate as well -/
+example : (luStep luTag (luAfter luTag ⟨0, none, 53⟩ [.decomp true false, .setSlice 1]) (.decomp true false)).2
+      = some (.ok (.computed, (1, 53))) := by decide
+
+/-- every assignment through `__setitem__` — element or slice — leaves `_LU` empty, whatever was cached before -/
+theorem matrixLU_assignment_clears {D R : Type} (LU : D → Nat → Option R) (s : LUState D R) (d : D) :
+    (luStep LU s (.setItem d)).1.lu = none ∧ (luStep LU s (.setSlice d)).1.lu = none ∧
+    (luStep LU s (.setItem d)).1.data = d ∧ (luStep LU s (.setSlice d)).1.data = d := by
+  simp [luStep]
+
 /-- an aborted `LU_decomp` (injected, or ZeroDivisionError of the algorithm) leaves `_LU` as it was -/
 theorem matrixLU_abort_safe {D R : Type} (LU : D → Nat → Option R) (s : LUState D R) (uc : Bool) :
     (luStep LU s (.decomp uc true)).2 = some .raised → (luStep LU s (.decomp uc true)).1 = s := by
